@@ -131,6 +131,10 @@ class Recipe:
         d = copy.deepcopy(self.data)
         walk(d, lambda k, v: {kk: vv + ["sib"] for kk, vv in v.items()} if k == "qualifiers" and isinstance(v, dict) else v)
         out.append(Recipe(self.kind, self.mode, d))
+        # the same levels in a hierarchy of another depth (with / without an assembly above the chromosome record)
+        d = copy.deepcopy(self.data)
+        d["assembly"] = not d.get("assembly")
+        out.append(Recipe(self.kind, self.mode, d))
         return out
 
     # ---- parents -------------------------------------------------------------------------
@@ -138,13 +142,18 @@ class Recipe:
         """sequence type in the spelling this recipe uses (enum member or plain string)"""
         return getattr(SequenceType, name) if self.data["enum_types"] else getattr(SequenceType, name).value
 
+    def _assembly(self):
+        """the level above the chromosome record, for the recipes that have one (`data["assembly"]`): hierarchies of two
+        depths with identical lower levels are what a cache keyed without the ancestors cannot tell apart"""
+        return Parent(id="asm1", sequence_type="assembly") if self.data.get("assembly") else None
+
     def chromosome_parent(self, with_sequence=True):
         d = self.data
         if with_sequence:
             return Parent(id=d["chrom"], sequence_type=self._t("CHROMOSOME"),
                           sequence=Sequence(d["genome"], Alphabet.NT_EXTENDED_GAPPED, id=d["chrom"],
-                                            type=self._t("CHROMOSOME")))
-        return Parent(id=d["chrom"], sequence_type=self._t("CHROMOSOME"))
+                                            type=self._t("CHROMOSOME")), parent=self._assembly())
+        return Parent(id=d["chrom"], sequence_type=self._t("CHROMOSOME"), parent=self._assembly())
 
     def chunk_parent(self, window=None):
         d = self.data
@@ -155,7 +164,8 @@ class Recipe:
             sequence=Sequence(
                 d["genome"][cs:ce], Alphabet.NT_EXTENDED_GAPPED, id=chunk_id, type=self._t("SEQUENCE_CHUNK"),
                 parent=Parent(location=SingleInterval(
-                    cs, ce, Strand.PLUS, parent=Parent(id=d["chrom"], sequence_type=self._t("CHROMOSOME")))),
+                    cs, ce, Strand.PLUS, parent=Parent(id=d["chrom"], sequence_type=self._t("CHROMOSOME"))),
+                    parent=self._assembly()),
             ),
         )
 
@@ -708,6 +718,7 @@ def make(kind, rng, mode=None, spelling=None, cut=None, inherit=False):
          "enum_types": rng.random() < 0.7, "named": rng.random() < 0.9}
     if spelling is not None:
         d["enum_types"] = spelling == "e"
+    d["assembly"] = L % 3 == 0          # (no draw from rng: the other choices stay what they were)
     share = rng.random() < 0.25
     d["share"] = share
     if kind in ("single", "compound", "parent", "empty"):
